@@ -335,33 +335,7 @@ pub fn global_parse_int(
         // correctly rounded, however many digits there are
         digits.parse::<f64>().unwrap_or(f64::NAN)
     } else {
-        // Exact while the value fits 128 bits; beyond that the remaining digits only scale the
-        // value and make it inexact (sticky bit), which keeps power-of-two radices correctly rounded.
-        let mut acc: u128 = 0;
-        let mut extra_digits: i32 = 0;
-        let mut sticky = false;
-        for c in digits.chars() {
-            let d = c.to_digit(radix as u32).unwrap_or(0) as u128;
-            if extra_digits == 0 {
-                match acc.checked_mul(radix as u128).and_then(|v| v.checked_add(d)) {
-                    Some(v) => {
-                        acc = v;
-                        continue;
-                    }
-                    None => {}
-                }
-            }
-            extra_digits = extra_digits.saturating_add(1);
-            sticky |= d != 0;
-        }
-        let mut value = (acc | sticky as u128) as f64;
-        for _ in 0..extra_digits {
-            value *= radix as f64;
-            if value.is_infinite() {
-                break;
-            }
-        }
-        value
+        crate::value::radix_digits_to_number(digits, radix as u32).unwrap_or(f64::NAN)
     };
 
     let result = if negative { -magnitude } else { magnitude };
@@ -391,7 +365,9 @@ pub fn global_parse_float(
     if matches!(bytes.first(), Some(b'-') | Some(b'+')) {
         pos += 1;
     }
-    if s.get(pos..).is_some_and(|rest| rest.starts_with("Infinity")) {
+    if s.get(pos..)
+        .is_some_and(|rest| rest.starts_with("Infinity"))
+    {
         let n = if bytes.first() == Some(&b'-') {
             f64::NEG_INFINITY
         } else {
